@@ -92,6 +92,9 @@ pub struct Mix {
     pub fewmovers: u32,
     pub rookcap: u32,
     pub epdisc: u32,
+    pub dense: u32,
+    pub special: u32,
+    pub maxrec: u32,
     /// probability (per 100) that a root is followed by a walk, and its maximal length
     pub walk_pct: u32,
     pub walk_len: u32,
@@ -104,15 +107,15 @@ pub struct Mix {
 impl Mix {
     pub const GENERAL: Mix = Mix {
         start960: 6, dfrc: 6, corpus: 10, scatter: 14, sound: 12, pins: 12, ep: 12, castle: 14, promo: 6, mating: 5,
-        maxbatch: 1, sanamb: 2, fewmovers: 3, rookcap: 4, epdisc: 4, walk_pct: 35, walk_len: 60, null_pct: 8, clock_edge_pct: 15,
+        maxbatch: 1, sanamb: 2, fewmovers: 3, rookcap: 4, epdisc: 4, dense: 2, special: 3, maxrec: 1, walk_pct: 35, walk_len: 60, null_pct: 8, clock_edge_pct: 15,
     };
     pub const HISTORIES: Mix = Mix {
         start960: 10, dfrc: 10, corpus: 10, scatter: 6, sound: 10, pins: 14, ep: 12, castle: 14, promo: 6, mating: 6,
-        maxbatch: 1, sanamb: 1, fewmovers: 3, rookcap: 4, epdisc: 4, walk_pct: 90, walk_len: 120, null_pct: 15, clock_edge_pct: 20,
+        maxbatch: 1, sanamb: 1, fewmovers: 3, rookcap: 4, epdisc: 4, dense: 2, special: 3, maxrec: 1, walk_pct: 90, walk_len: 120, null_pct: 15, clock_edge_pct: 20,
     };
     pub const ROOTS_ONLY: Mix = Mix {
         start960: 4, dfrc: 4, corpus: 12, scatter: 16, sound: 14, pins: 12, ep: 12, castle: 14, promo: 6, mating: 4,
-        maxbatch: 1, sanamb: 1, fewmovers: 3, rookcap: 4, epdisc: 4, walk_pct: 10, walk_len: 20, null_pct: 5, clock_edge_pct: 10,
+        maxbatch: 1, sanamb: 1, fewmovers: 3, rookcap: 4, epdisc: 4, dense: 2, special: 3, maxrec: 1, walk_pct: 10, walk_len: 20, null_pct: 5, clock_edge_pct: 10,
     };
 }
 
@@ -170,7 +173,7 @@ impl<'c> Driver<'c> {
     /// candidate (which is normal for scatter / lattice candidates).
     pub fn root(&self, cx: &mut Cx) -> Option<(Board, &'static str, &'static str, Option<RMove>)> {
         let m = &self.mix;
-        let ws = [m.start960, m.dfrc, m.corpus, m.scatter, m.sound, m.pins, m.ep, m.castle, m.promo, m.mating, m.maxbatch, m.sanamb, m.fewmovers, m.rookcap, m.epdisc];
+        let ws = [m.start960, m.dfrc, m.corpus, m.scatter, m.sound, m.pins, m.ep, m.castle, m.promo, m.mating, m.maxbatch, m.sanamb, m.fewmovers, m.rookcap, m.epdisc, m.dense, m.special, m.maxrec];
         let k = pick_weighted(cx, &ws);
         match k {
             0 => {
@@ -199,15 +202,18 @@ impl<'c> Driver<'c> {
             }
             14 => {
                 // position before a double push that discovers a check; the push is forced next
-                let (p, from, to) = gen::ep_discovery_case(&mut cx.rng)?;
-                let mv = RMove { from: from as u8, to: to as u8, promo: None };
-                if !p.legal_moves().contains(&mv) {
-                    return None;
+                for _ in 0..24 {
+                    if let Some((p, from, to)) = gen::ep_discovery_case(&mut cx.rng) {
+                        let mv = RMove { from: from as u8, to: to as u8, promo: None };
+                        if !p.legal_moves().contains(&mv) {
+                            continue;
+                        }
+                        if let Ok(Ok(b)) = build(&p) {
+                            return Some((b, "builder", "ep-discovery", Some(mv)));
+                        }
+                    }
                 }
-                match build(&p) {
-                    Ok(Ok(b)) => Some((b, "builder", "ep-discovery", Some(mv))),
-                    _ => None,
-                }
+                None
             }
             _ => {
                 let (p, src): (RPos, &'static str) = match k {
@@ -221,6 +227,9 @@ impl<'c> Driver<'c> {
                     10 => (gen::max_batch_case(&mut cx.rng), "max-batch"),
                     11 => (gen::san_ambiguity_case(&mut cx.rng), "san-ambiguity"),
                     12 => (gen::few_movers_case(&mut cx.rng), "few-movers"),
+                    15 => (gen::dense_fragmented_case(&mut cx.rng), "dense-fragmented"),
+                    16 => gen::special_class_case(&mut cx.rng),
+                    17 => (gen::max_record_case(&mut cx.rng), "max-record"),
                     _ => (gen::rook_right_capture_case(&mut cx.rng), "rook-right-capture"),
                 };
                 // both entry routes are used; which one hands out the board alternates
